@@ -233,6 +233,23 @@ CLAIMED = {
              "sequential state machine; that the real tasks satisfy the premise is the subject of C05 / C13.",
         technique="Lean 4 proof (schedule independence under a restoring-task premise, rounding lemmas) + explored schedules on the real code",
         design="DESIGN.md section 5, C14"),
+    "C16": dict(
+        engine="sampling",
+        text="Lean 4 over the exact-arithmetic model of cobra.sampling.core.step (candidate step lengths from the scaled boxes with the tolerance and "
+             "fixed-variable filters, the range [max non-positive, min positive], the move, the bound check, the stuck test and the retry from the "
+             "centre): step_keeps_equalities (a step along w - c with A w = A c = b stays in A x = b), alpha_range_sound (inside the boxes and not on "
+             "a face the direction points out of, every step length in the computed range keeps every moving coordinate inside), "
+             "on_a_face_the_range_leaks (the side condition is needed — hence the check after the move), step_result_checked (whatever the random "
+             "choices and retries, a returned point passed the bound check), flux_of_split and flux_steady_state (fluxes of a variable-space point are "
+             "within the reaction bounds and at steady state). The Lean step is compared with the real step function on dyadic data (binary64 exact); "
+             "every sample returned by ACHR / OptGP (sample() and sampler objects, reaction and variable space, thinning, nproj, 1..3 processes) on "
+             "generated feasible models (homogeneous, forced / fixed fluxes, extra linear constraints) is checked in exact rational arithmetic; row count, "
+             "column order, same seed -> same samples, validate() against the independent check, model untouched.",
+        note="Partial by nature: binary64 arithmetic, numpy's generator, the SVD null space and the re-projection are outside the model; whether the floating "
+             "walk stays inside is monitored on every returned sample, not proved. Feasibility judged at 1e-6 (10x the documented tolerance). Trusted: Lean "
+             "kernel, standard axioms.",
+        technique="Lean 4 proof (geometry of the hit-and-run step in exact arithmetic) + differential correspondence on exact data + exact feasibility monitoring of real samples",
+        design="DESIGN.md section 5, C16"),
 }
 
 PENDING_REASON = "check under construction in this session (see DESIGN.md section 9 build order); not claimed until its Lean model, theorems and correspondence exist"
@@ -283,6 +300,8 @@ def main():
              "kind_free_text": "translate_effects.py (AST of the analyses -> Gen/EffectTable.lean), run-time write recorder, before/after state comparison in isolated child processes"},
             {"name": "schedule", "path": "harness/c14.py", "serves_properties": ["C14"],
              "kind_free_text": "Lean Schedule model + driver, wrapped pool workers (delays, pid logs), cross-schedule comparison in isolated child processes"},
+            {"name": "sampling", "path": "harness/c16.py", "serves_properties": ["C16"],
+             "kind_free_text": "Lean Sampling model + driver vs cobra.sampling.core.step on dyadic data; exact feasibility check of every returned sample"},
             {"name": "gpr", "path": "harness/c08.py", "serves_properties": ["C08"],
              "kind_free_text": "Lean model GPRM (rule trees, parser, remover) + generated escape tables + correspondence against cobra.core.gene.GPR"},
         ],
